@@ -38,7 +38,10 @@ theorem compileN_nil (f : Facts) (ord : Ord) (b : Builder) (o : COpts) :
 /-! ### what the type-inference work list leaves alone -/
 
 /-- the cells only Add* calls themselves write -/
-def Builder.ends (b : Builder) := (b.startNodes, b.endNodes, b.buildError, b.compiled)
+def Builder.ends (b : Builder) := (b.startNodes, b.endNodes, b.buildError, b.compiled, b.cmp)
+
+/-- the compiled flag and the kind of graph -/
+abbrev Builder.flags (b : Builder) := (b.compiled, b.cmp)
 
 theorem setTy_ends (b : Builder) (k : Key) (t : Ty) : (b.setTy k t).ends = b.ends := rfl
 
@@ -97,8 +100,8 @@ theorem ends_startNodes {b b' : Builder} (h : b'.ends = b.ends) : b'.startNodes 
 theorem ends_endNodes {b b' : Builder} (h : b'.ends = b.ends) : b'.endNodes = b.endNodes := by
   simp only [Builder.ends, Prod.mk.injEq] at h; exact h.2.1
 
-theorem ends_compiled {b b' : Builder} (h : b'.ends = b.ends) : b'.compiled = b.compiled := by
-  simp only [Builder.ends, Prod.mk.injEq] at h; exact h.2.2.2
+theorem ends_compiled {b b' : Builder} (h : b'.ends = b.ends) : b'.flags = b.flags := by
+  simp only [Builder.ends, Prod.mk.injEq] at h; simp [Builder.flags, h.2.2.2.1, h.2.2.2.2]
 
 /-! ### calls that create no entry / no exit edge -/
 
@@ -145,7 +148,7 @@ theorem addNode_startNodes (f : Facts) (b : Builder) (n : NodeSpec) :
 theorem addEdgeBody_keeps (im : Impl) (ord : Ord) (b b' : Builder) (s e : Key) (nc nd : Bool) (m : Option Nat)
     (h : addEdgeBody im ord b s e nc nd m = .ok b') :
     ((s == START && !nc) = false → b'.startNodes = b.startNodes) ∧
-    ((e == END && !nc) = false → b'.endNodes = b.endNodes) ∧ b'.compiled = b.compiled := by
+    ((e == END && !nc) = false → b'.endNodes = b.endNodes) ∧ b'.flags = b.flags := by
   unfold addEdgeBody at h
   split at h; · simp at h
   split at h; · simp at h
@@ -156,7 +159,7 @@ theorem addEdgeBody_keeps (im : Impl) (ord : Ord) (b b' : Builder) (s e : Key) (
   · simp at h
   · rename_i b1 hr1
     have hb1 : ((s == START && !nc) = false → b1.startNodes = b.startNodes) ∧
-        ((e == END && !nc) = false → b1.endNodes = b.endNodes) ∧ b1.compiled = b.compiled := by
+        ((e == END && !nc) = false → b1.endNodes = b.endNodes) ∧ b1.flags = b.flags := by
       cases nc
       · simp only [Bool.false_eq_true, ↓reduceIte] at hr1
         split at hr1
@@ -187,12 +190,12 @@ theorem addEdgeBody_keeps (im : Impl) (ord : Ord) (b b' : Builder) (s e : Key) (
           simp only [Builder.addToValidate] at h1 h2 h3
           exact ⟨fun hs => by show b2.startNodes = _; rw [h1]; exact hb1.1 hs,
                  fun he => by show b2.endNodes = _; rw [h2]; exact hb1.2.1 he,
-                 by show b2.compiled = _; rw [h3]; exact hb1.2.2⟩
+                 by show b2.flags = _; rw [h3]; exact hb1.2.2⟩
 
 theorem addEdge_keeps (f : Facts) (im : Impl) (ord : Ord) (b : Builder) (s e : Key) (nc nd : Bool) (m : Option Nat) :
     ((s == START && !nc) = false → (addEdge f im ord b s e nc nd m).1.startNodes = b.startNodes) ∧
     ((e == END && !nc) = false → (addEdge f im ord b s e nc nd m).1.endNodes = b.endNodes) ∧
-    (addEdge f im ord b s e nc nd m).1.compiled = b.compiled := by
+    (addEdge f im ord b s e nc nd m).1.flags = b.flags := by
   unfold addEdge
   split
   · exact ⟨fun _ => rfl, fun _ => rfl, rfl⟩
@@ -209,14 +212,14 @@ theorem addEdge_keeps (f : Facts) (im : Impl) (ord : Ord) (b : Builder) (s e : K
           apply guarded_keeps _ _ _ (·.endNodes)
           · intro b' hb; exact (addEdgeBody_keeps im ord b b' s e nc nd m hb).2.1 he
           · intro k; rfl
-        · apply guarded_keeps _ _ _ (·.compiled)
+        · apply guarded_keeps _ _ _ (·.flags)
           · intro b' hb; exact (addEdgeBody_keeps im ord b b' s e nc nd m hb).2.2
           · intro k; rfl
 
 theorem branchEnds_keeps (im : Impl) (ord : Ord) (s : Key) (ends : List Key) :
     ∀ (b b' : Builder), branchEnds im ord s ends b = .ok b' →
       (s ≠ START → b'.startNodes = b.startNodes) ∧ (END ∉ ends → b'.endNodes = b.endNodes) ∧
-      b'.compiled = b.compiled := by
+      b'.flags = b.flags := by
   induction ends with
   | nil => intro b b' h; simp [branchEnds] at h; rw [← h]; exact ⟨fun _ => rfl, fun _ => rfl, rfl⟩
   | cons e es ih =>
@@ -243,7 +246,7 @@ theorem branchEnds_keeps (im : Impl) (ord : Ord) (s : Key) (ends : List Key) :
 theorem addBranchBody_keeps (f : Facts) (im : Impl) (ord : Ord) (b b' : Builder) (s : Key) (t : Ty)
     (ends : List Key) (sk : Bool) (hv : ord.Valid) (h : addBranchBody f im ord b s t ends sk = .ok b') :
     ((s == START && !sk) = false → b'.startNodes = b.startNodes) ∧
-    ((ends.contains END && !sk) = false → b'.endNodes = b.endNodes) ∧ b'.compiled = b.compiled := by
+    ((ends.contains END && !sk) = false → b'.endNodes = b.endNodes) ∧ b'.flags = b.flags := by
   unfold addBranchBody at h
   split at h; · simp at h
   split at h; · simp at h
@@ -277,7 +280,7 @@ theorem addBranchBody_keeps (f : Facts) (im : Impl) (ord : Ord) (b b' : Builder)
           have : END ∉ ord.ends b3 ends := fun hh => this ((hv.ends b3 ends).mem_iff.mp hh)
           show b4.endNodes = b.endNodes
           rw [hk.2.1 this]; exact ends_endNodes hb3
-        · show b4.compiled = b.compiled
+        · show b4.flags = b.flags
           rw [hk.2.2]; exact ends_compiled hb3
       · simp only [↓reduceIte, Except.ok.injEq] at h4
         subst h4
@@ -287,7 +290,7 @@ theorem addBranch_keeps (f : Facts) (im : Impl) (ord : Ord) (hv : ord.Valid) (b 
     (ends : List Key) (sk : Bool) :
     ((s == START && !sk) = false → (addBranch f im ord b s t ends sk).1.startNodes = b.startNodes) ∧
     ((ends.contains END && !sk) = false → (addBranch f im ord b s t ends sk).1.endNodes = b.endNodes) ∧
-    (addBranch f im ord b s t ends sk).1.compiled = b.compiled := by
+    (addBranch f im ord b s t ends sk).1.flags = b.flags := by
   unfold addBranch
   refine ⟨?_, ?_, ?_⟩
   · intro hs
@@ -298,13 +301,13 @@ theorem addBranch_keeps (f : Facts) (im : Impl) (ord : Ord) (hv : ord.Valid) (b 
     apply guarded_keeps _ _ _ (·.endNodes)
     · intro b' hb; exact (addBranchBody_keeps f im ord b b' s t ends sk hv hb).2.1 he
     · intro k; rfl
-  · apply guarded_keeps _ _ _ (·.compiled)
+  · apply guarded_keeps _ _ _ (·.flags)
     · intro b' hb; exact (addBranchBody_keeps f im ord b b' s t ends sk hv hb).2.2
     · intro k; rfl
 
-theorem addNode_compiled (f : Facts) (b : Builder) (n : NodeSpec) : (addNode f b n).1.compiled = b.compiled := by
+theorem addNode_compiled (f : Facts) (b : Builder) (n : NodeSpec) : (addNode f b n).1.flags = b.flags := by
   unfold addNode
-  apply guarded_keeps _ _ _ (·.compiled)
+  apply guarded_keeps _ _ _ (·.flags)
   · intro b' hb; split at hb <;> simp at hb; rw [← hb]
   · intro k; rfl
 
@@ -319,7 +322,7 @@ theorem compile_keeps (f : Facts) (ord : Ord) (b : Builder) (o : COpts) :
 theorem step_keeps (f : Facts) (im : Impl) (ord : Ord) (hv : ord.Valid) (b : Builder) (op : Op) :
     (op.entry = false → (step f im ord b op).1.startNodes = b.startNodes) ∧
     (op.exit = false → (step f im ord b op).1.endNodes = b.endNodes) ∧
-    (op.isCompile = false → (step f im ord b op).1.compiled = b.compiled) := by
+    (op.isCompile = false → (step f im ord b op).1.flags = b.flags) := by
   cases op with
   | node n => exact ⟨fun _ => (addNode_startNodes f b n).1, fun _ => (addNode_startNodes f b n).2,
                      fun _ => addNode_compiled f b n⟩
@@ -452,26 +455,23 @@ def DOps.hasSub (key : Key) (child : Decl) (co : COpts) : DOps → Prop
   | .op _ rest => DOps.hasSub key child co rest
   | .sub k c o rest => (k = key ∧ c = child ∧ o = co) ∨ DOps.hasSub key child co rest
 
-theorem build_keeps (E : Env) (hc : E.inCtl = true) (hv : E.ord.Valid) (ops : DOps) :
-    ∀ b : Builder,
+theorem build_keeps (E : Env) (hc : E.inCtl = true) (hv : E.ord.Valid) :
+    ∀ (ops : DOps) (b : Builder),
     (ops.all (fun o => !o.entry) = true → (DOps.build E ops b).1.startNodes = b.startNodes) ∧
     (ops.all (fun o => !o.exit) = true → (DOps.build E ops b).1.endNodes = b.endNodes) ∧
-    (ops.all (fun o => !o.isCompile) = true → (DOps.build E ops b).1.compiled = b.compiled) := by
-  induction ops with
-  | nil => intro b; simp [DOps.build]
-  | op o rest ih =>
-    intro b
+    (ops.all (fun o => !o.isCompile) = true → (DOps.build E ops b).1.flags = b.flags)
+  | .nil, b => by simp [DOps.build]
+  | .op o rest, b => by
     have h1 := step_keeps E.f E.im E.ord hv b o
-    have h2 := ih (stepK E b o).1
+    have h2 := build_keeps E hc hv rest (stepK E b o).1
     simp only [DOps.build, DOps.all, Bool.and_eq_true, Bool.not_eq_eq_eq_not, Bool.not_true]
     rw [stepK_true E hc] at h2 ⊢
     refine ⟨fun h => ?_, fun h => ?_, fun h => ?_⟩
     · rw [h2.1 h.2, h1.1 h.1]
     · rw [h2.2.1 h.2, h1.2.1 h.1]
     · rw [h2.2.2 h.2, h1.2.2 h.1]
-  | sub key child co rest ih =>
-    intro b
-    have h2 := ih (addNode E.f b (subSpec key child.inT child.outT)).1
+  | .sub key child co rest, b => by
+    have h2 := build_keeps E hc hv rest (addNode E.f b (subSpec key child.inT child.outT)).1
     have h1 := addNode_startNodes E.f b (subSpec key child.inT child.outT)
     have h3 := addNode_compiled E.f b (subSpec key child.inT child.outT)
     simp only [DOps.build, DOps.all]
@@ -489,45 +489,41 @@ theorem addNode_stored (f : Facts) (hf : f.Guarded) (b : Builder) (k : ErrKind) 
   have hg : f.nodeG.checkErr = true := by rw [hf.node]; rfl
   unfold addNode; rw [guarded_stored _ hg b k h]
 
-theorem build_err_sticks (E : Env) (hf : E.f.Guarded) (hc : E.inCtl = true) (ops : DOps) :
-    ∀ (b : Builder) (k : ErrKind), b.buildError = some k → (DOps.build E ops b).1 = b := by
-  induction ops with
-  | nil => intro b k _; rfl
-  | op o rest ih =>
-    intro b k h
+theorem build_err_sticks (E : Env) (hf : E.f.Guarded) (hc : E.inCtl = true) :
+    ∀ (ops : DOps) (b : Builder) (k : ErrKind), b.buildError = some k → (DOps.build E ops b).1 = b
+  | .nil, b, k, _ => rfl
+  | .op o rest, b, k, h => by
     simp only [DOps.build, stepK_stored E hf hc b k h o]
-    exact ih b k h
-  | sub key child co rest ih =>
-    intro b k h
+    exact build_err_sticks E hf hc rest b k h
+  | .sub key child co rest, b, k, h => by
     simp only [DOps.build, addNode_stored E.f hf b k h]
-    exact ih b k h
+    exact build_err_sticks E hf hc rest b k h
 
 /-- a declared sub-graph node either went into the list of graphs to compile, or its AddGraphNode
     failed and the error is kept -/
 theorem build_sub (E : Env) (hf : E.f.Guarded) (hc : E.inCtl = true) (hv : E.ord.Valid)
-    (key : Key) (child : Decl) (co : COpts) (ops : DOps) :
-    ∀ b : Builder, ops.all (fun o => !o.isCompile) = true → b.compiled = false →
+    (key : Key) (child : Decl) (co : COpts) :
+    ∀ (ops : DOps) (b : Builder), ops.all (fun o => !o.isCompile) = true → b.compiled = false →
       DOps.hasSub key child co ops →
-      (DOps.build E ops b).1.buildError ≠ none ∨ Decl.first E child co ∈ (DOps.build E ops b).2 := by
-  induction ops with
-  | nil => intro b _ _ h; exact absurd h (by simp [DOps.hasSub])
-  | op o rest ih =>
-    intro b ha hcmp hs
+      (DOps.build E ops b).1.buildError ≠ none ∨ Decl.first E child co ∈ (DOps.build E ops b).2
+  | .nil, b, _, _, h => absurd h (by simp [DOps.hasSub])
+  | .op o rest, b, ha, hcmp, hs => by
     simp only [DOps.all, Bool.and_eq_true, Bool.not_eq_eq_eq_not, Bool.not_true] at ha
     simp only [DOps.hasSub] at hs
     simp only [DOps.build]
     have h1 := (step_keeps E.f E.im E.ord hv b o).2.2 ha.1
     rw [← stepK_true E hc] at h1
-    exact ih _ (by simpa using ha.2) (by rw [h1]; exact hcmp) hs
-  | sub k c o rest ih =>
-    intro b ha hcmp hs
+    have h1' : (stepK E b o).1.compiled = b.compiled := congrArg Prod.fst h1
+    exact build_sub E hf hc hv key child co rest _ (by simpa using ha.2) (by rw [h1']; exact hcmp) hs
+  | .sub k c o rest, b, ha, hcmp, hs => by
     simp only [DOps.all] at ha
     simp only [DOps.build]
-    have h3 := addNode_compiled E.f b (subSpec k c.inT c.outT)
+    have h3 : (addNode E.f b (subSpec k c.inT c.outT)).1.compiled = b.compiled :=
+      congrArg Prod.fst (addNode_compiled E.f b (subSpec k c.inT c.outT))
     rcases hs with ⟨rfl, rfl, rfl⟩ | hs
     · -- this very node
       cases hr : (addNode E.f b (subSpec k c.inT c.outT)).2 with
-      | ok => right; simp [hr, Outcome.isOk]
+      | ok => right; simp [Outcome.isOk]
       | fresh kk =>
         left
         have hst : E.f.nodeG.storeErr = true := by rw [hf.node]; rfl
@@ -563,7 +559,7 @@ theorem build_sub (E : Env) (hf : E.f.Guarded) (hc : E.inCtl = true) (hv : E.ord
         · split at hr
           · simp at hr
           · split at hr <;> simp at hr
-    · rcases ih _ ha (by rw [h3]; exact hcmp) hs with h | h
+    · rcases build_sub E hf hc hv key child co rest _ ha (by rw [h3]; exact hcmp) hs with h | h
       · left; exact h
       · right
         split
@@ -590,7 +586,7 @@ theorem attempt_no_ends (E : Env) (hc : E.inCtl = true) (hv : E.ord.Valid) (b : 
   split
   · exact ⟨rfl, fun h _ => h, fun h _ => h⟩
   · split
-    · rename_i oc hoc; exact ⟨hg oc rfl, fun h _ => h, fun h _ => h⟩
+    · rename_i oc; exact ⟨hg oc rfl, fun h _ => h, fun h _ => h⟩
     · have hk := runK_keeps E hc hv calls b
       have hcn := compileN_keeps E.f E.ord (runK E b calls) o kids
       refine ⟨?_, fun h0 hc0 => ?_, fun h0 hc0 => ?_⟩
@@ -647,6 +643,34 @@ theorem compilesFrom_no_exit (E : Env) (hc : E.inCtl = true) (hv : E.ord.Valid) 
       · simp at hop
       · exact hp op hop
 
+theorem runK_flags (E : Env) (hc : E.inCtl = true) (hv : E.ord.Valid) (ops : List Op) :
+    ∀ b : Builder, (∀ op ∈ ops, op.isCompile = false) → (runK E b ops).flags = b.flags := by
+  induction ops with
+  | nil => intro b _; rfl
+  | cons op ops ih =>
+    intro b h
+    simp only [runK, stepK_true E hc]
+    rw [ih _ (fun o ho => h o (by simp [ho])), (step_keeps E.f E.im E.ord hv b op).2.2 (h op (by simp))]
+
+/-- a Workflow never accepts a step limit or a trigger mode -/
+theorem attempt_bad_options (E : Env) (hc : E.inCtl = true) (hv : E.ord.Valid) (b : Builder) (calls : List Op)
+    (guard : Option Outcome) (o : COpts) (kids : List Outcome)
+    (hg : ∀ oc, guard = some oc → oc.isOk = false) (hw : b.cmp = .workflow)
+    (hcalls : ∀ op ∈ calls, op.isCompile = false) (ho : o.maxSteps > 0 ∨ o.trigger ≠ .unset) :
+    (attempt E b calls guard o kids).2.isOk = false := by
+  unfold attempt
+  split
+  · rfl
+  · split
+    · rename_i oc; exact hg oc rfl
+    · have hfl : (runK E b calls).cmp = .workflow := by
+        have := congrArg Prod.snd (runK_flags E hc hv calls b hcalls)
+        simp only at this; rw [this]; exact hw
+      apply compileN_bad_options
+      rcases ho with ho | ho
+      · left; exact ⟨by simp [isDag, hfl], ho⟩
+      · right; exact ⟨Or.inr hfl, ho⟩
+
 /-! ### the Workflow API -/
 
 theorem wfNodeOps_all (p : Op → Bool) (hp : ∀ n, p (.node n) = true) (ns : List WfNode) :
@@ -669,5 +693,30 @@ theorem wf_branchOps_entry (d : WfDecl) : ∀ op ∈ d.branchOps, op.entry = fal
   simp only [WfDecl.branchOps, List.mem_map] at hop
   rcases hop with ⟨br, _, rfl⟩
   simp [Op.entry, Op.exit]
+
+theorem wf_inputOps_entry (d : WfDecl)
+    (h : ∀ n ∈ d.nodes, ∀ i ∈ n.ins, i.src = START → i.kind = .indirect)
+    (hE : ∀ i ∈ d.endIns, i.src = START → i.kind = .indirect) :
+    ∀ op ∈ d.inputOps, op.entry = false := by
+  intro op hop
+  simp only [WfDecl.inputOps, List.mem_append, List.mem_flatMap, List.mem_map] at hop
+  rcases hop with ⟨n, hn, i, hi, rfl⟩ | ⟨i, hi, rfl⟩
+  · simp only [WfIn.op, Op.entry, Bool.and_eq_false_imp, beq_iff_eq]
+    intro hs; simp [h n hn i hi hs]
+  · simp only [WfIn.op, Op.entry, Bool.and_eq_false_imp, beq_iff_eq]
+    intro hs; simp [hE i hi hs]
+
+theorem wf_inputOps_exit (d : WfDecl) (h : ∀ n ∈ d.nodes, n.key ≠ END)
+    (hE : ∀ i ∈ d.endIns, i.kind = .indirect) : ∀ op ∈ d.inputOps, op.exit = false := by
+  intro op hop
+  simp only [WfDecl.inputOps, List.mem_append, List.mem_flatMap, List.mem_map] at hop
+  rcases hop with ⟨n, hn, i, hi, rfl⟩ | ⟨i, hi, rfl⟩
+  · simp [WfIn.op, Op.exit, h n hn]
+  · simp [WfIn.op, Op.exit, hE i hi]
+
+theorem wf_calls_noCompile (d : WfDecl) : ∀ op ∈ d.branchOps ++ d.inputOps, op.isCompile = false := by
+  intro op hop
+  simp only [WfDecl.inputOps, WfDecl.branchOps, List.mem_append, List.mem_flatMap, List.mem_map] at hop
+  rcases hop with ⟨br, _, rfl⟩ | ⟨n, _, i, _, rfl⟩ | ⟨i, _, rfl⟩ <;> simp [WfIn.op, Op.isCompile]
 
 end EinoV.Build
